@@ -38,6 +38,7 @@ TIERS = {
     "thorough": {"runs": 160000, "chunk": 400, "wall": 800, "chunk_timeout": 900, "selftest": 16},
 }
 ISOLATE_RUNS = True
+OPTIMIZE_SHARE = 0.004     # this share of the runs executes under `python -O` (asserts compiled away)
 
 
 def preload():
@@ -174,8 +175,14 @@ def gen_schema(rng):
                 other = [w for w in pool if w not in names]
                 if other:
                     sigs.append({"name": rng.choice(other), "fields": [["endianess", "big"]]})
+        extra = []
+        if rng.random() < 0.08:
+            # binding-level extension fields that merely share the NAME of a per-signal option: they are declared for
+            # no field, so no leaf may carry them
+            extra = [[k, v] for k, v in (("endianess", "big"), ("mux_count", rng.randint(2, 9)), ("mux_signal", rng.choice(names)))
+                     if rng.random() < 0.6] or [["endianess", "big"]]
         decls.append({"kind": "impl", "protocol": proto, "type": sname, "name": alias,
-                      "fields": [["id", canid + bi]] + ([["device", "ecu"]] if rng.random() < 0.5 else []),
+                      "fields": [["id", canid + bi]] + ([["device", "ecu"]] if rng.random() < 0.5 else []) + extra,
                       "signals": sigs})
     return decls
 
@@ -183,6 +190,11 @@ def gen_schema(rng):
 def gen_ops(rng, nb):
     n = rng.randint(12, 60)
     ops = []
+    cs = weighted(rng, [(0, 6), (1, 2), (2, 2)])
+    if cs:
+        # how the encoders' contexts are made: 1 = every context derived from ONE shared base context object,
+        # 2 = each derived from the context the previously made encoder holds (ctx_b = ctx_a.with_unroll_arrays(..))
+        ops.append(["ctx", cs])
     if rng.random() < 0.2:
         # hammer: the same binding laid out many times in a row on one encoder (if it raises, that is 10-45 failed calls)
         enc, bi = rng.choice("UN"), rng.randrange(nb)
@@ -239,8 +251,22 @@ class System:
                 raise RuntimeError(f"binding {name}/{proto} not found exactly once in the parsed tree")
             self.impls.append(m[0])
 
+    ctx_style = 0
+    _base_ctx = None
+    _last_ctx = None
+
     def new_encoder(self, unroll: bool):
-        return self.E.make_encoder("packed", self.fcp, self.E.PackedEncoderContext().with_unroll_arrays(unroll))
+        C = self.E.PackedEncoderContext
+        if self.ctx_style == 1:
+            if self._base_ctx is None:
+                self._base_ctx = C()
+            ctx = self._base_ctx.with_unroll_arrays(unroll)
+        elif self.ctx_style == 2:
+            ctx = (self._last_ctx if self._last_ctx is not None else C()).with_unroll_arrays(unroll)
+            self._last_ctx = ctx
+        else:
+            ctx = C().with_unroll_arrays(unroll)
+        return self.E.make_encoder("packed", self.fcp, ctx)
 
     def pristine_layout(self, bi: int, unroll: bool):
         """Layout of binding bi by a brand-new encoder on a brand-new copy of the tree as it was right after parsing
@@ -386,6 +412,10 @@ def execute(decls, ops, probes=None, tr=None, distinct=None, shape=None, field_o
     sysm = System(decls, field_order_seed)
     if field_order_seed is not None:
         probes["tree_field_lists_permuted"] += 1
+    for op in ops:
+        if op[0] == "ctx":
+            sysm.ctx_style = op[1]
+            probes[f"context_derivation_style_{op[1]}"] += 1
     enc = {"U": sysm.new_encoder(True), "N": sysm.new_encoder(False)}
     prev = {"U": None, "N": None}          # (binding index, outcome) of the previous call on that encoder
     since_fresh = {"U": 0, "N": 0}
@@ -393,6 +423,8 @@ def execute(decls, ops, probes=None, tr=None, distinct=None, shape=None, field_o
     viol = []
     evals = 0
     for oi, op in enumerate(ops):
+        if op[0] == "ctx":
+            continue
         if op[0] == "fresh":
             e = op[1]
             enc[e] = sysm.new_encoder(e == "U")
@@ -590,7 +622,7 @@ def minimise(v):
         ob, nb = bindings_of(old), bindings_of(new)
         out = []
         for o in ops_:
-            if o[0] == "fresh":
+            if o[0] in ("fresh", "ctx"):
                 out.append(o)
                 continue
             b = ob[o[2] % len(ob)]
